@@ -47,11 +47,14 @@ def explore(ctx):
     each, red = [], []
     n1 = 80 if ctx.quick() else 700
     n2 = 120 if ctx.quick() else 1000
-    for it in range(n1):
-        sc = scengen.gen_scenario(rnd, 'faults')
-        sc['cfg']['no_cache'] = rnd.random() < 0.4
-        if rnd.random() < 0.4:   # revisit: run the same passes twice
-            sc['passes'] = sc['passes'] + [dict(p) for p in sc['passes']]
+    for it in range(n1 + n1):
+        if it >= n1:
+            sc = scengen.gen_revisit(rnd)
+        else:
+            sc = scengen.gen_scenario(rnd, 'faults')
+            sc['cfg']['no_cache'] = rnd.random() < 0.4
+            if rnd.random() < 0.4:   # revisit: run the same passes twice
+                sc['passes'] = sc['passes'] + [dict(p) for p in sc['passes']]
         o = driver.run_scenario(sc, ctx.tmp)
         ctx.evaluations += 1
         if o.diverged:
